@@ -169,6 +169,7 @@ def m_np_where(eng, st, args, kwargs, node):
     else:
         raise Unsupported("np.where of %r" % (e0,))
     idx = filtered(eng, st, o.len, tr, lambda k: VInt(k), numpy=True, etype=T.int)
+    st.heap[idx.addr].identity_idx = True          # the entries are the positions themselves: a[np.where(m)] is a[m]
     return VTuple([idx])
 
 
